@@ -375,7 +375,15 @@ pub fn wait_quiescent() {
     // all helper threads (event reports, decompression) have exited when only this thread is left
     let start = std::time::Instant::now();
     loop {
-        let n = std::fs::read_dir("/proc/self/task").map(|d| d.count()).unwrap_or(1);
+        // the kernel's own thread count (one atomic read); a failed or garbled read counts as "still busy"
+        let n = std::fs::read_to_string("/proc/self/status")
+            .ok()
+            .and_then(|s| {
+                s.lines()
+                    .find_map(|l| l.strip_prefix("Threads:").map(|v| v.trim().parse::<usize>().ok()))
+                    .flatten()
+            })
+            .unwrap_or(usize::MAX);
         // the scripted HTTP server keeps one accept thread for the whole run
         let base = if crate::http::enabled() { 2 } else { 1 };
         if n <= base {
